@@ -1192,6 +1192,12 @@ func (ev *Env) evalCall(x *ECall) Value {
 		if t == nil {
 			ev.fail("unbox: unknown type %s", tn)
 		}
+		if sv, ok := fc.boxedStructs[v.T+"|"+shortType(t)]; ok {
+			return sv
+		}
+		if _, isStruct := t.Underlying().(*types.Struct); isStruct {
+			ev.fail("unbox(%s, %s): the interface value was not built from a struct literal in this activation", x.Args[0].String(), tn)
+		}
 		srt := fc.sortOf(t)
 		if pay, ok := fc.boxed[v.T+"|"+shortType(t)]; ok {
 			return Scalar{pay, srt, t}
